@@ -323,6 +323,8 @@ func (se *SignalEnum) RemoveAllValues() {
 	se.values.clear()
 	se.valueNames.clear()
 	se.valueIndexes.clear()
+
+	se.maxIndex = 0
 }
 
 // Values returns a slice of all the enum values of the [SignalEnum].
